@@ -104,6 +104,11 @@ def assignAnswer (ws : List String) : String :=
       | some a => fmtAcc a
       | none => "panic"
     | _, _, _, _, _ => "bad-op"
+  | ["acc-scale-bit", b, a] =>
+    -- value held by the circuit after `AssignedAccumulator::scale_by_bit`
+    match parseAcc? a with
+    | some a => if b = "1" then fmtAcc (a.scaleByBit true) else if b = "0" then fmtAcc (a.scaleByBit false) else "bad-op"
+    | none => "bad-op"
   | ["ivc-step", ll, rl, ln, rn, r, pa, ca] =>
     match ll.toNat?, rl.toNat?, parseNames? ln, parseNames? rn, parseNat? r, parseAcc? pa, parseAcc? ca with
     | some ll, some rl, some ln, some rn, some r, some pa, some ca =>
@@ -111,26 +116,28 @@ def assignAnswer (ws : List String) : String :=
       | some a => fmtAcc a
       | none => "panic"
     | _, _, _, _, _, _, _ => "bad-op"
-  | "agg-layout" :: names :: r :: accs =>
+  | "agg-layout" :: names :: nbFixed :: queried :: r :: accs =>
     -- sections of the aggregated proof before the PLONK proof, the committed column and the
-    -- name-alignment of the IPA pairing, for the accumulation of the given proof accumulators
-    match parseNames? names, parseNat? r, accs.mapM parseAcc? with
-    | some names, some r, some accs =>
+    -- name-alignment of the IPA pairing (with all fixed bases of the key / with the bases
+    -- `ipa_fixed_bases` keeps), for the accumulation of the given proof accumulators
+    match parseNames? names, nbFixed.toNat?, (parseNames? queried).bind (·.mapM String.toNat?), parseNat? r, accs.mapM parseAcc? with
+    | some names, some nbFixed, some queried, some r, some accs =>
       match Acc.accumulate accs (fr r) with
       | some acc =>
         match aggSectionsOf acc with
         | some s =>
           let fb : List (String × Fr) := names.map (fun n => (n, (0 : Fr)))
-          s!"n={s.lhsBases.length} lhs={fmtHexList (s.lhsBases.map (·.val))};{fmtHexList (s.lhsScalars.map (·.val))} m={s.rhsBases.length} rhs={fmtHexList (s.rhsBases.map (·.val))} committed={fmtHexList ((aggCommitted (fun _ => []) acc).map (·.val))} aligned={fmtBool (aggAligned acc fb)}"
+          s!"n={s.lhsBases.length} lhs={fmtHexList (s.lhsBases.map (·.val))};{fmtHexList (s.lhsScalars.map (·.val))} m={s.rhsBases.length} rhs={fmtHexList (s.rhsBases.map (·.val))} committed={fmtHexList ((aggCommitted (fun _ => []) acc).map (·.val))} aligned_all={fmtBool (aggAligned acc fb)} ipa_fixed={fmtNames ((ipaFixedBases nbFixed queried fb).map (·.1))} aligned={fmtBool (aggAligned acc (ipaFixedBases nbFixed queried fb))}"
         | none => "panic"
       | none => "panic"
-    | _, _, _ => "bad-op"
+    | _, _, _, _, _ => "bad-op"
   | _ => "bad-op"
 
 def answer (line : String) : String :=
   match words line with
   | "fbnames" :: _ => assignAnswer (words line)
   | "acc-assign" :: _ => assignAnswer (words line)
+  | "acc-scale-bit" :: _ => assignAnswer (words line)
   | "ivc-step" :: _ => assignAnswer (words line)
   | "agg-layout" :: _ => assignAnswer (words line)
   | "msm-awr" :: _ => accAnswer (words line)
